@@ -222,6 +222,48 @@ pub fn battery(input: &[u8], full: bool, out: &mut Findings) -> u64 {
         stream!(u8, "u8");
         stream!(String, "String");
     }
+    // values that outlive their input: the text sits in a heap buffer of its own which is
+    // overwritten and freed (under the fence: unmapped) before the values are read
+    run("values outlive the input (embedded / streamed; plain, raw-number, lossy)", &mut || {
+        for mode in 0..3 {
+            let mk = |b: &[u8]| -> Vec<Value> {
+                let de = Deserializer::from_slice(b);
+                let mut de = match mode {
+                    1 => de.use_rawnumber(),
+                    2 => de.utf8_lossy(),
+                    _ => de,
+                };
+                let mut out: Vec<Value> = de.deserialize::<Vec<Value>>().unwrap_or_default();
+                // and the values of a stream over the same text
+                let de = Deserializer::from_slice(&b[1..b.len() - 1]);
+                let de = match mode {
+                    1 => de.use_rawnumber(),
+                    2 => de.utf8_lossy(),
+                    _ => de,
+                };
+                let mut st = de.into_stream::<Value>();
+                for _ in 0..3 {
+                    if let Some(Ok(v)) = st.next() {
+                        out.push(v);
+                    }
+                }
+                out
+            };
+            let mut wrapped = Vec::with_capacity(input.len() + 6);
+            wrapped.extend_from_slice(b"[0,");
+            wrapped.extend_from_slice(input);
+            wrapped.extend_from_slice(b" ]");
+            // "[0,<input> ]" as Vec<Value>;  "0,<input> " as a stream (the comma ends it early
+            // unless the input supplies its own documents: both are fine here)
+            let vals = mk(&wrapped);
+            wrapped.iter_mut().for_each(|b| *b = b'#');
+            drop(wrapped);
+            for v in &vals {
+                ser_all(v);
+                let _ = format!("{:?}", v);
+            }
+        }
+    });
     // get family
     let ps = paths();
     run("get / get_many / get_by_schema", &mut || {
